@@ -260,11 +260,14 @@ func evalRealX(c realCase) (vs []viol, engineErr string, outcome string) {
 	wo, we := c.expected()
 	wantO, wantE := nonEmptyLines(string(wo)), nonEmptyLines(string(we))
 	if c.Cancel == "" {
+		okO, okE := true, true
 		if cl := classify(gotO, wantO, len(wo) > 0 && wo[len(wo)-1] != '\n'); cl != "" {
 			add("stdout", cl, wantO, gotO, "")
+			okO = false
 		}
 		if cl := classify(gotE, wantE, len(we) > 0 && we[len(we)-1] != '\n'); cl != "" {
 			add("stderr", cl, wantE, gotE, "")
+			okE = false
 		}
 		if strings.HasPrefix(c.API, "output") {
 			// Output() "returns all of it": per stream, the lines of the returned string (told apart by their first
@@ -281,10 +284,11 @@ func evalRealX(c realCase) (vs []viol, engineErr string, outcome string) {
 					outO = append(outO, l)
 				}
 			}
-			if cl := classify(outO, wantO, len(wo) > 0 && wo[len(wo)-1] != '\n'); cl != "" {
+			// (evaluated only when the messages of that stream were right: otherwise it is the same failure seen twice)
+			if cl := classify(outO, wantO, len(wo) > 0 && wo[len(wo)-1] != '\n'); cl != "" && okO {
 				add("stdout", "output-string:"+cl, wantO, outO, "")
 			}
-			if cl := classify(outE, wantE, len(we) > 0 && we[len(we)-1] != '\n'); cl != "" {
+			if cl := classify(outE, wantE, len(we) > 0 && we[len(we)-1] != '\n'); cl != "" && okE {
 				add("stderr", "output-string:"+cl, wantE, outE, "")
 			}
 		}
